@@ -1,5 +1,6 @@
 import YaqsModel.Basic.Parse
 import YaqsModel.Model.Params
+import YaqsModel.Model.NoiseNorm
 /-! line protocol for run histories on one parameter object (C20)
 
     hist <new|old|assertlate> <s|w|a> <numTraj> <shots> <getState 0|1> <lindblad 0|1> | <noise> <noise> …
@@ -44,7 +45,70 @@ def showOut (o : Out) : String :=
 def mkArgs (ns : List (Option (List Rat))) : List Arg :=
   (List.range ns.length).zip ns |>.map fun (r, n) => ⟨n, stubBe r, stubBw r⟩
 
+/-! noise-model requests (Model.NoiseNorm)
+
+    nnorm <known,names,…> | <proc> <proc> …      proc = name;s0,s1;<strength>;<hasMatrix 0|1>;<hasFactors 0|1>
+                                                 strength = v:<rat>  or  d:<kind|->:<mean>:<std>
+      reply: `ok` then per process name;sites;<fill>;<keptFactors>   or   err:assertion | err:attribute
+    nsample <strength> … | <draw> …              one draw per process (ignored for numbers)
+      reply: `ok` then the sampled strengths   or   err:value
+-/
+open Yaqs.NoiseNorm in
+def parseStrength? (w : String) : Option Strength :=
+  match w.splitOn ":" with
+  | ["v", q] => (parseRat? q).map Strength.val
+  | ["d", kind, m, sd] =>
+    match parseRat? m, parseRat? sd with
+    | some m, some sd => some (Strength.dist (if kind = "-" then none else some kind) m sd)
+    | _, _ => none
+  | _ => none
+
+open Yaqs.NoiseNorm in
+def parseProc? (w : String) : Option ProcIn :=
+  match w.splitOn ";" with
+  | [name, sites, st, m, f] =>
+    let ss? := if sites = "" then some [] else parseAll? parseNat? (sites.splitOn ",")
+    let b? (w : String) : Option Bool := if w = "1" then some true else if w = "0" then some false else none
+    match ss?, parseStrength? st, b? m, b? f with
+    | some ss, some st, some m, some f => some ⟨name.toList, ss, st, m, f⟩
+    | _, _, _, _ => none
+  | _ => none
+
+open Yaqs.NoiseNorm in
+def showFill : Fill → String
+  | .callerMatrix => "callerMatrix" | .libMatrix => "libMatrix" | .kronMatrix => "kronMatrix"
+  | .callerFactors => "callerFactors" | .pauliFactors => "pauliFactors"
+
+open Yaqs.NoiseNorm in
+def showNErr : NoiseNorm.Err → String
+  | .assertion => "err:assertion" | .attribute => "err:attribute" | .value => "err:value"
+
+open Yaqs.NoiseNorm in
+def handleNoise (line : String) : Option String :=
+  match splitBar (words line) with
+  | ["nnorm" :: known, procs] =>
+    let names : List Name := (known.flatMap (·.splitOn ",")).filter (· ≠ "") |>.map String.toList
+    match parseAll? parseProc? procs with
+    | some ps =>
+      match normalize (fun n => names.contains n) ps with
+      | .ok qs => some (joinWith " " ("ok" :: qs.map fun q =>
+          String.ofList q.name ++ ";" ++ joinWith "," (q.sites.map toString) ++ ";" ++ showFill q.fill ++ ";" ++ showBool q.keptFactors))
+      | .error e => some (showNErr e)
+    | none => some "bad-op"
+  | ["nsample" :: sts, draws] =>
+    match parseAll? parseStrength? sts, parseAll? parseRat? draws with
+    | some ss, some ds =>
+      if ds.length ≠ ss.length then some "bad-op"
+      else match sample ss ds with
+        | .ok qs => some (joinWith " " ("ok" :: qs.map showRat))
+        | .error e => some (showNErr e)
+    | _, _ => some "bad-op"
+  | _ => none
+
 def handle (line : String) : String :=
+  match handleNoise line with
+  | some r => r
+  | none =>
   match splitBar (words line) with
   | [["hist", variant, kind, nt, sh, gs, lb], noises] =>
     let k? : Option Kind := if kind = "s" then some .strong else if kind = "w" then some .weak
